@@ -253,8 +253,10 @@ def py_options(cs, salt):
             if e == 'absent':
                 continue
             if kind == 'restr':
+                # malformed values, including the boundary: an index equal to the number of atoms (0-based: one too many)
+                bad = BAD_RESTR + [[(SPECIES[s]['nS'], 0)], [(0, SPECIES[s]['nE'])], [(0, 0), (SPECIES[s]['nS'] - 1, SPECIES[s]['nE'])]]
                 out[s] = {'none': None if salt % 2 else [], 'valid': [(i - 1, j - 1) for i, j in SPECIES[s]['valid']],
-                          'bad': BAD_RESTR[salt % len(BAD_RESTR)]}[e]
+                          'bad': bad[salt % len(bad)]}[e]
             elif kind == 'deform':
                 out[s] = {'none': None if salt % 2 else (), 'valid': (0, 1), 'bad': BAD_DEFORM[salt % len(BAD_DEFORM)]}[e]
             else:
